@@ -1,6 +1,6 @@
 (* C05 -- scoped dispatch (partial).  Only statements, `exact` proofs and Print Assumptions. *)
 From LolModel Require Import Machine Selectors Rewriter.
-From LolProofs Require Import Memory Scope StackTree TypedCounters EndTags AstSem VmRun ScopeCss.
+From LolProofs Require Import Memory Scope StackTree TypedCounters EndTags AstSem VmRun ScopeCss SelOkDec.
 From LolSpec Require Import CssSem.
 From Coq Require Import List.
 Open Scope nat_scope.
@@ -72,6 +72,21 @@ Theorem C05_scoped_handlers_follow_css_matching_on_the_tree :
   (forall i, lc_tx l = Some i -> (0 < cnt (r_text c) i <-> opened (owns (r_locators c0) lc_tx i))).
 Proof. exact scoped_handlers_follow_css. Qed.
 
+(* ... and with the decidable side condition on the selectors (sel_okb, see C04) in place of sel_ok *)
+Theorem C05_scoped_handlers_follow_css_matching_for_checked_selectors :
+  forall sels docs bail fa isz mx ext ops c,
+  sels <> nil -> forallb (fun sh => sel_okb (sh_selector sh)) sels = true ->
+  never_wraps_a (mkTree nil nil) ops ->
+  vm_run (new_rwc sels docs bail fa isz mx) ext ops = Some c ->
+  let c0 := new_rwc sels docs bail fa isz mx in
+  let chain := chain_of (tree_run_a (mkTree nil nil) ops) in
+  forall k l, nth_error (r_locators c0) k = Some l ->
+  let opened (own : nat -> bool) := exists j e id sh, nth_error chain j = Some e /\ own id = true /\ nth_error sels id = Some sh /\
+                                     selector_matches (sh_selector sh) e (rev (firstn j chain)) = true in
+  (forall i, lc_cm l = Some i -> (0 < cnt (r_comment c) i <-> opened (owns (r_locators c0) lc_cm i))) /\
+  (forall i, lc_tx l = Some i -> (0 < cnt (r_text c) i <-> opened (owns (r_locators c0) lc_tx i))).
+Proof. exact scoped_handlers_follow_css_dec. Qed.
+
 (* non-vacuity: `div` with a comment handler, after writing "<div><p><!--" the handler is active and exactly one
    (element, selector) pair owns it; after "</div>" it is inactive again *)
 Definition ex_sels := [mkSH [mkComplex [SType (bs "div")] []] None (Some []) None].
@@ -91,3 +106,4 @@ Print Assumptions C05_scoped_handler_active_iff_matched_element_open.
 Print Assumptions C05_end_tag_pops_exactly_the_closed_elements.
 Print Assumptions C05_end_tag_stops_exactly_the_closed_elements.
 Print Assumptions C05_scoped_handlers_follow_css_matching_on_the_tree.
+Print Assumptions C05_scoped_handlers_follow_css_matching_for_checked_selectors.
